@@ -3,6 +3,7 @@
 //!             conform drive  <module> <seed> <steps> <out.ndjson> [extra-json]
 mod binder;
 mod common;
+mod drive_gateway;
 mod gateway;
 mod probe;
 
